@@ -835,9 +835,7 @@ def run_xf(ctx, R, cases):
         if src_icc[0] == "ok" or not dicc:
             want = src_icc
         elif src_icc[0] == "absent":
-            # option copies APP2 but the source has none: the documentation ("overrides") leaves open whether the
-            # instance profile is written; not judged
-            want = ("ok", dicc) if eopt not in (2, 4) else None
+            want = ("ok", dicc)      # nothing copied that looks like an ICC marker: the instance profile is written
         else:
             want = None
         line = "rd %s %s" % (ALLSAVE, hx(rebuild(osegs, b"")))
@@ -867,8 +865,8 @@ def run_xf(ctx, R, cases):
 
 # ------------------------------------------------------------------- known-finding probes
 def run_probes(ctx, R):
-    """Concrete inputs on which the faithful model violates a clause (the *_refuted theorems of
-    props/C16.v), replayed on the implementation."""
+    """Regression cases of the two defects found with this check and since fixed in the tree (design/C16.md,
+    KNOWN_FINDINGS.txt fixed: entries): reported again, with their old signatures, if the behaviour returns."""
     # 1. lossless scan with dc_tbl_no = 1 (YCbCr input): emit_sos writes Td = 0 because Ss = PSV <> 0
     c1 = {"kind": "probe", "name": "lossless-yccin"}
     o = R.harness(["jc 16 16 yccin - 8 l 1 0 0 - d d 0 - -"], lambda i: c1)[0]
